@@ -203,24 +203,35 @@ def run(ctx):
             return decide_all_equal([('t handed to t2T', t[1], Rat.sym('TT')), ('result', r, Rat.sym('RESULT'))])
         ob('R07.4').run(fi, 'Path branch when s falls on segment %d' % k, th4, judge4, allowed_raises=('ValueError', 'AssertionError'))
 
-    # ---------------------------------------------------------------- R07.5 delegation
+    # ---------------------------------------------------------------- R07.5 delegation (or an equivalent own contract)
     for cname in ('Line', 'QuadraticBezier', 'CubicBezier', 'Arc', 'Path'):
         f = mdl.func('path.%s.ilength' % cname)
         rec = {}
 
-        def th5(it, f=f, rec=rec):
+        def th5(it, f=f, rec=rec, cname=cname):
             rec.clear()
             it.call_hooks[Q] = lambda it2, a, kw: rec.update(a=a, kw=dict(kw)) or Rat.sym('R')
-            self_ = Opaque('self')
-            from svtstatic.values import Closure
-            r = it.call_closure(Closure(f, f.node, None, f.module, self_, f.cls), [S],
-                                {'s_tol': Rat.sym('tol'), 'maxits': Rat.sym('mi'), 'error': Rat.sym('err'), 'min_depth': Rat.sym('md')})
-            return r, dict(rec), self_
+            if cname == 'Line':
+                self_ = it.construct('path.Line', *cpoints(2))
+            elif cname == 'QuadraticBezier':
+                self_ = it.construct('path.QuadraticBezier', *cpoints(3))
+            elif cname == 'CubicBezier':
+                self_ = it.construct('path.CubicBezier', *cpoints(4))
+            elif cname == 'Arc':
+                self_ = sym_arc(it, 'A', True, False)
+            else:
+                self_ = it.construct('path.Path', it.construct('path.Line', *cpoints(2)))
+            it.call_hooks['path.%s.length' % cname] = lambda it2, a, kw: L
+            r = it.call_method(self_, 'ilength', S, s_tol=Rat.sym('tol'), maxits=Rat.sym('mi'), error=Rat.sym('err'), min_depth=Rat.sym('md'))
+            return r, dict(rec), self_, path_sign(it, S), path_sign(it, S - L)
 
         def judge5(v):
-            r, rec, self_ = v
+            r, rec, self_, s_sign, sl_sign = v
             if 'a' not in rec:
-                return False, 'does not call inv_arclength'
+                # not delegated: the method must honour the contract itself on this path
+                inside = s_sign <= frozenset('0+') and sl_sign <= frozenset('-0')
+                return (False, 'does not delegate to inv_arclength and returns a result on a path that has not established 0 <= s <= L'
+                        ) if not inside else (None, 'own implementation instead of inv_arclength: inverse relation not comparable')
             a, kw = rec['a'], rec['kw']
             params = ['curve', 's', 's_tol', 'maxits', 'error', 'min_depth']
             bound = dict(zip(params, a))
@@ -230,7 +241,8 @@ def run(ctx):
             return decide_all_equal([('s', bound.get('s', 0), S), ('s_tol', bound.get('s_tol', 0), Rat.sym('tol')), ('maxits', bound.get('maxits', 0), Rat.sym('mi')),
                                      ('error', bound.get('error', 0), Rat.sym('err')), ('min_depth', bound.get('min_depth', 0), Rat.sym('md')),
                                      ('result', r, Rat.sym('R'))])
-        ob('R07.5').run(f, '%s.ilength forwards its arguments' % cname, th5, judge5)
+        opts = arc_opts(mdl) if cname == 'Arc' else {}
+        ob('R07.5').run(f, '%s.ilength forwards its arguments' % cname, th5, judge5, allowed_raises=('AssertionError', 'ValueError'), opts=opts)
 
 
 def _is_midpoint(e):
